@@ -135,11 +135,12 @@ class Prim(Contract):
         inst = Instance(cls)
         env = I.bind_args(node, [inst] + list(args), kw, lambda d: I.eval_in_module(d, cls.module))
         s0 = C.Snap(W, I)
-        k = ctx.ghost.setdefault("prim_calls", 0)
-        ctx.ghost["prim_calls"] += 1
-        tag = f"{ctx.func}/call#{k}/{cls.name}"
+        tag = f"call:{I.call_site_id(cls.name)}"
         for lbl, f, props in self.requires(W, s0, env):
             ctx.oblige(f"{tag}/requires:{lbl}", f, kind="pre", props=props)
+        if getattr(W, "check_invertible_here", False):
+            for lbl, f, props in self.invertible_here(I, W, s0, env):
+                ctx.oblige(f"{tag}/invertible-here:{lbl}", f, kind="pre", props=props)
         for exc, guard in self.raise_cases(W, s0, env):
             if ctx.branch(guard, f"{cls.name} raises {exc}"):
                 raise PyRaise(BuiltinExc(exc, ()))
@@ -149,7 +150,14 @@ class Prim(Contract):
             ctx.assume(f)
         inst.fields.update(self.fields(I, W, s0, env))
         inst.fields["tracks"] = W.tracks
+        if "E" in self.modifies and getattr(W, "step_lemmas", False):
+            # step lemmas: the degree bounds of the intermediate graph, proved once here so that later
+            # obligations need not chase the chain of pointwise degree updates
+            v1 = s1.v
+            ctx.lemma(f"{tag}/lemma:in<=1-after", forall([a_], v1.idg(a_) <= 1), props=("C03",), tag="lemma.in1")
+            ctx.lemma(f"{tag}/lemma:out<=2-after", forall([a_], v1.od(a_) <= 2), props=("C03",), tag="lemma.out2")
         ctx.ghost["log"].append((cls.name,))
+        ctx.ghost.setdefault("applied", []).append(inst)
         return inst
 
     # -- verification form
@@ -324,7 +332,8 @@ class AddNodeC(Prim):
         has, at = C.dict_view(env["attributes"])
         K = W.K
         out = [("track-id-and-time-are-integers", AND(IMP(has(K.trk), is_VInt(norm(at(K.trk)))), IMP(has(K.tk), is_VInt(norm(at(K.tk))))), ("C11",)),
-               ("lineage-id-is-an-integer-if-given", IMP(has(K.lk), OR(is_VInt(norm(at(K.lk))), is_VNone(norm(at(K.lk))))), ("C11",))]
+               ("lineage-id-is-an-integer-if-given", IMP(has(K.lk), OR(is_VInt(norm(at(K.lk))), is_VNone(norm(at(K.lk))))), ("C11",)),
+               ("position-value-is-not-None", IMP(has(K.pk), z3.Not(is_VNone(norm(at(K.pk))))), ("C01",))]
         if W.seg is not None and env.get("pixels") is not None:
             from . import segspec
             out += segspec.add_node_requires(W, s0, env)
@@ -527,12 +536,21 @@ class UpdateTrackIDsC(Prim):
             if ctx.branch(guard, f"UpdateTrackIDs raises {exc}"):
                 raise PyRaise(BuiltinExc(exc, ()))
         start = to_z3(env["start_node"], Int)
+        if getattr(W, "check_invertible_here", False):
+            tag = f"call:{I.call_site_id('UpdateTrackIDs')}"
+            for lbl, f, props in self.invertible_here(I, W, s0, env):
+                ctx.oblige(f"{tag}/invertible-here:{lbl}", f, kind="pre", props=props)
+        ctx.ghost.setdefault("applied", []).append(inst)
         inst.fields.update({
             "tracks": W.tracks, "start_node": env["start_node"],
             "old_tracklet_id": Sym(T.tid(s0.v, W.K, start)), "new_tracklet_id": env["tracklet_id"],
             "new_lineage_id": env["lineage_id"], "old_lineage_id": Sym(T.lid(s0.v, W.K, start)),
         })
-        ctx.contracts[C.WalkAssumed.qualname].apply(I, [W.ta, inst], {})
+        I.walk_site = I.call_site_id("UpdateTrackIDs")
+        try:
+            ctx.contracts[C.WalkAssumed.qualname].apply(I, [W.ta, inst], {})
+        finally:
+            I.walk_site = None
         ctx.ghost["log"].append(("UpdateTrackIDs",))
         return inst
 
@@ -594,10 +612,16 @@ class InvertPrim(Contract):
         ctx = I.ctx
         W = C.world(I, has_seg=cfg.get("seg", False), inv=("forest", "trackids", "lineage", "b1", "b1l", "b2", "segfacts"))
         W.with_lineage = True
+        W.lineage_lookup_contract = True
         prim = self.prim
         prim.W = W
         install_loopspecs(I, W)
         ctx.contracts[C.WalkAssumed.qualname] = C.WalkAssumed(W)
+        # modular: the action, its inverse and the inverse of the inverse are all used through the
+        # contracts of the primitive constructors (each proved of its real body in its own unit);
+        # what is executed for real here are the inverse() methods
+        install_prim_contracts(I, W)
+        prim = ctx.contracts[prim.qualname]
         cls = repo().get_class(prim.cls_qual)
         node = cls.find("__init__")[1]
         args, kw = prim.symbolic_args(I, W)
